@@ -96,15 +96,34 @@ struct TokEntry
 struct World
 {
   std::vector<Context> pool;
+  // temp[i] non-empty: context i was a TEMPORARY handed straight to Attach (ATT/ATP): the driver holds NO reference to it
+  // (pool[i] is just Context()); it is recognised by its own binding temp[i] -> int64 i
+  std::vector<std::string> temp;
+  std::vector<char> is_temp;
   std::vector<TokEntry> toks;
-  Context &ctx(size_t i) { return i < pool.size() ? pool[i] : pool[0]; }
+  bool bad = false;
+  void name(const Context &c) { pool.push_back(c); temp.emplace_back(); is_temp.push_back(0); }
+  void name_temp(const std::string &key) { pool.push_back(Context()); temp.push_back(key); is_temp.push_back(1); }
+  Context &ctx(size_t i)
+  {
+    if (i >= pool.size()) return pool[0];
+    if (is_temp[i]) bad = true;   // a temporary cannot be referred to later
+    return pool[i];
+  }
 };
 
 static long long cur_idx(World &w)
 {
   Context cur = RuntimeContext::GetCurrent();
   for (size_t i = 0; i < w.pool.size(); i++)
-    if (cur == w.pool[i]) return (long long)i;
+    if (!w.is_temp[i] && cur == w.pool[i]) return (long long)i;
+  for (size_t i = w.pool.size(); i-- > 0;)
+  {
+    if (!w.is_temp[i]) continue;
+    ExactBuf k(w.temp[i]);
+    ContextValue v = cur.GetValue(nostd::string_view(k.p, k.n));
+    if (nostd::holds_alternative<int64_t>(v) && nostd::get<int64_t>(v) == (int64_t)i) return (long long)i;
+  }
   return -1;
 }
 
@@ -156,29 +175,29 @@ static bool run_op(World &w, const std::vector<Tok> &a, Out &o)
     ExactBuf k(a[2].s);
     ContextValue v = mkval(a[3], a[4]);
     Context &c     = w.ctx(idx(1));
-    w.pool.push_back(op == "SV" ? c.SetValue(view(k), v) : RuntimeContext::SetValue(view(k), v, &c));
+    w.name(op == "SV" ? c.SetValue(view(k), v) : RuntimeContext::SetValue(view(k), v, &c));
   }
   else if (op == "RSV" && n == 4)
   {
     ExactBuf k(a[1].s);
-    w.pool.push_back(RuntimeContext::SetValue(view(k), mkval(a[2], a[3])));
+    w.name(RuntimeContext::SetValue(view(k), mkval(a[2], a[3])));
   }
   else if (op == "NEW1" && n == 4)
   {
     ExactBuf k(a[1].s);
-    w.pool.push_back(Context(view(k), mkval(a[2], a[3])));
+    w.name(Context(view(k), mkval(a[2], a[3])));
   }
   else if (op == "SSP" && n == 3)
   {
-    w.pool.push_back(trace::SetSpan(w.ctx(idx(1)), g_spans[idx(2) % g_spans.size()]));
+    w.name(trace::SetSpan(w.ctx(idx(1)), g_spans[idx(2) % g_spans.size()]));
   }
   else if (op == "SVS" && n >= 3 && (n - 3) % 3 == 0)
   {
-    w.pool.push_back(set_values(w.ctx(idx(1)), a, 3, false));
+    w.name(set_values(w.ctx(idx(1)), a, 3, false));
   }
   else if (op == "NEW" && n >= 2 && (n - 2) % 3 == 0)
   {
-    w.pool.push_back(set_values(w.pool[0], a, 2, true));
+    w.name(set_values(w.pool[0], a, 2, true));
   }
   else if ((op == "GV" || op == "RGVC") && n == 3)
   {
@@ -204,8 +223,20 @@ static bool run_op(World &w, const std::vector<Tok> &a, Out &o)
   {
     o.num(index_in(g_spans, trace::Tracer::GetCurrentSpan()));
   }
+  else if ((op == "ATT" || op == "ATP") && n == 3)
+  {
+    if (idx(1) != w.pool.size()) return false;
+    ExactBuf k(a[2].s);
+    TokEntry e;
+    e.own = RuntimeContext::Attach(Context(view(k), ContextValue(int64_t(idx(1)))));   // a temporary: nobody else holds it
+    e.st  = TokEntry::LIVE;
+    w.toks.push_back(std::move(e));
+    w.name_temp(a[2].s);
+    o.tag(";");   // two model operations: name it, attach it
+  }
   else if (op == "DUMP")
   {
+    for (char t : w.is_temp) if (t) return false;
     std::vector<std::unique_ptr<ExactBuf>> keys;
     for (size_t i = 1; i < n; i++) keys.emplace_back(new ExactBuf(a[i].s));
     for (auto &c : w.pool)
@@ -258,11 +289,11 @@ static bool run_op(World &w, const std::vector<Tok> &a, Out &o)
     else e.scope.reset(new trace::Scope(trace::Tracer::WithActiveSpan(sp)));
     e.st = TokEntry::SCOPE;
     w.toks.push_back(std::move(e));
-    w.pool.push_back(RuntimeContext::GetCurrent());   // name the context the scope attached
+    w.name(RuntimeContext::GetCurrent());   // name the context the scope attached
   }
   else return false;
   o.tag(";");
-  return true;
+  return !w.bad;
 }
 
 static bool run_ops(World &w, const std::vector<Tok> &seg, Out &o)
@@ -287,7 +318,7 @@ static void run_case(const std::vector<Tok> &t, Out &out)
   Out o;
   std::thread mainth([&] {
     World w;
-    w.pool.push_back(Context());
+    w.name(Context());
     ok = run_ops(w, segs[0], o);
     o.tag("|");
     size_t nth = segs.size() - 1;
@@ -302,6 +333,8 @@ static void run_case(const std::vector<Tok> &t, Out &out)
         ths.emplace_back([&, k] {
           World tw;
           tw.pool = w.pool;
+          tw.temp = w.temp;
+          tw.is_temp = w.is_temp;
           for (auto &e : w.toks)
           {
             TokEntry b;
